@@ -45,7 +45,7 @@ func content(p string, goMod string) string {
 	}
 	if p == "b" || p == "sub/x.go" {
 		// one large file (several deflate windows / copy buffers)
-		return strings.Repeat("content of "+p+" 0123456789abcdef\n", 2500)
+		return strings.Repeat("content of "+p+" 0123456789abcdef\n", 1300)
 	}
 	if p == "a/b/c" || p == "sub/deep/y.go" || p == "A" {
 		return "" // empty files
